@@ -39,11 +39,13 @@ EXTRA_TARGETS = ["model/IterFinTie.vo"]
 
 N = ["next"]
 KINDS = {0: "StopIteration", 1: "RuntimeError", 2: "AttributeError", 3: "KeyError", 4: "ValueError",
-         5: "IndexError"}
+         5: "IndexError", 7: "iterator.close() from inside _render_, its ValueError propagates",
+         8: "iterator.close() from inside _render_, its ValueError swallowed"}
 CTOR_KIND = {"init": 0, "frd_keep": 1, "frd_give": 2}
 MODE = {"render": 0, "str": 1, "draw": 2}
 HEADER = ("From Coq Require Import List ZArith.\nImport ListNotations.\n"
-          "From TI Require Import model.Iter model.IterSpec model.IterTie model.IterFinTie.\nOpen Scope nat_scope.\n")
+          "From TI Require Import model.Iter model.IterSpec model.IterTie model.IterSession model.IterFinTie.\n"
+          "Open Scope nat_scope.\n")
 
 
 # ----------------------------------------------------------------- generators
@@ -66,7 +68,7 @@ def gen_iter(rng, i, quick):
     c["ctor"] = rng.choices(["init", "frd_keep", "frd_give"], [50, 30, 20])[0]
     if c["n"] and rng.random() < 0.08:
         c["ffaults"] = {str(rng.randrange(c["n"])): rng.choice([0, 1])}
-    kinds = [1, 0]
+    kinds = [1, 0, 7, 8]
     if rng.random() < 0.25:
         kinds.append(rng.choice([2, 2, 3, 4, 5]))
     c["enumerate"] = kinds
@@ -79,7 +81,7 @@ def gen_iter(rng, i, quick):
 
 def iter_case(**kw):
     c = base.base_case(**kw)
-    c.setdefault("enumerate", [1, 0, 2])
+    c.setdefault("enumerate", [1, 0, 2, 7, 8])
     c.setdefault("enumerate_fin", [[0], [1], [0, 1]])
     return norm(c)
 
@@ -188,6 +190,82 @@ ONESHOT_CORPUS = [
 ]
 
 
+def mk_cfg(kind="keep", loops=1, cache=False, args="none", pad=None):
+    return {"kind": kind, "loops": loops, "cache": cache, "args": args, "pad": pad or ["E", 0, 0, 0, 0]}
+
+
+def session_case(steps, **kw):
+    c = {"mode": "session", "n": 2, "total": 4, "size": [1, 1], "dur": 1, "frame": 0, "stamp": False, "faults": {},
+         "ffaults": {}, "steps": steps, "enumerate": [1, 0]}
+    c.update(kw)
+    return c
+
+
+MK, AN, OF = (lambda **kw: ["make", mk_cfg(**kw)]), (lambda **kw: ["animate", mk_cfg(**kw)]), ["ownerfin"]
+OP = lambda o: ["op", o]  # noqa: E731
+SESSION_CORPUS = [
+    # m6 shape A: non-owning iteration to exhaustion, the owner finalizes, the data is handed in again
+    session_case([MK(), OP(N), OP(N), OP(N), OF, MK(), OP(N), MK(kind="give"), OP(N)]),
+    # the same, closed early; and never closed (dropped by the next make)
+    session_case([MK(), OP(N), OP(["close"]), OF, MK(), OP(N)], n=3),
+    session_case([MK(), OP(N), MK(), OP(N), OP(N), OF, MK(), OP(N), AN()], n=3),
+    # m6 shape B: _animate_ twice with the owner's finalize in between (what a draw() override would do)
+    session_case([AN(), OF, AN(), MK(), OP(N)]),
+    session_case([AN(loops=2, cache=True, args=1, pad=["E", 1, 0, 0, 0]), AN(), OF, AN(loops=2)], n=3),
+    session_case([AN(), AN(), AN(), OF, OF, AN()], n=None, total=3),
+    # live data handed over to an owning iterator: it finalizes; every later construction is refused
+    session_case([MK(), OP(N), MK(kind="give"), OP(N), OP(N), OP(N), MK(), OP(N), MK(kind="give"), AN(), OF]),
+    session_case([MK(kind="give"), OP(N), MK(), OP(N), OF, MK()], n=3),
+    session_case([MK(kind="give"), OP(["drop"]), MK(kind="keep"), MK(kind="give")]),
+    # several non-owning iterators, settings left in the data by one are seen by the next
+    session_case([MK(), OP(N), OP(["size", [2, 1]]), OP(["dur", 7]), OP(N), MK(), OP(N), OP(["seek", 1, 0, True]), OP(N),
+                  MK(args=2, pad=["E", 1, 1, 0, 0]), OP(N), OP(N), OF], n=3),
+    session_case([MK(), OP(N), OP(["seek", 2, 1, True]), OP(N), MK(), OP(N), OP(N), OP(N), OP(N), OF, MK()], n=None, total=6),
+    # refused constructions on live data change nothing
+    session_case([MK(loops=0), MK(cache=0), MK(args="bad"), MK(), OP(N), MK(loops=0), OP(N), OF]),
+    # the owner finalizes before any iterator exists
+    session_case([OF, MK(), MK(kind="give"), AN(), OP(N)]),
+    # the owner's misuse (finalize under a live iterator): model agreement only
+    session_case([MK(), OP(N), OF, OP(N), OP(N)], n=3),
+]
+
+
+def gen_session(rng, i):
+    n = rng.choice([2, 2, 3, 3, 5, None])
+    steps, live, finalized = [], False, False
+    for _ in range(rng.randint(2, 5)):
+        if rng.random() < 0.3:
+            steps.append(AN(loops=rng.choice([1, 1, 2]) if rng.random() > 0.05 else 0,
+                            cache=rng.choice([False, True, 100]), args=rng.choice(["none", 0, 1, 2]),
+                            pad=list(rng.choice(base.PADS_EXACT + base.PADS_ABS))))
+            live = False
+        else:
+            kind = "keep" if rng.random() < 0.75 else "give"
+            steps.append(MK(kind=kind, loops=rng.choice([1, 2, -1]) if rng.random() > 0.04 else 0,
+                            cache=rng.choice([False, True, 2, 100]),
+                            args=rng.choice(["none", 0, 1, 2]) if rng.random() > 0.04 else "bad",
+                            pad=base.gen_pad(rng)))
+            live = True
+            pos = 0
+            for _ in range(rng.randint(0, 7)):
+                k = rng.choices(["next", "seek", "set", "close"], [60, 12, 18, 6])[0]
+                if k == "next":
+                    steps.append(OP(N))
+                elif k == "seek":
+                    steps.append(OP(base.gen_seek(rng, n, pos)))
+                elif k == "set":
+                    steps.append(OP(rng.choice([["dur", rng.choice(base.DURS)], ["size", list(rng.choice(base.SIZES))],
+                                                ["args", rng.choice([0, 1, 2])], ["pad", base.gen_pad(rng)]])))
+                else:
+                    steps.append(OP([rng.choice(["close", "drop"])]))
+        if rng.random() < 0.45:
+            if live and rng.random() < 0.93:  # the owner waits for the iterator (almost always)
+                steps.append(OP(["close"]) if rng.random() < 0.6 else MK(loops=0))
+            steps.append(OF)
+    return session_case(steps, n=n, total=rng.randint(2, 6), size=list(rng.choice(base.SIZES)), dur=rng.choice(base.DURS),
+                        frame=0 if n is None or rng.random() < 0.6 else rng.randrange(n), stamp=rng.random() < 0.3)
+
+
 # ----------------------------------------------------------------- encoding to Coq
 
 z = base.z
@@ -230,7 +308,8 @@ def fcase_t(c, r):
             f"f_fz_ops := {core.coq_list(r['fz_ops'], b)}; f_closed_ops := {core.coq_list(r['closed_ops'], b)}; "
             f"f_others := {nats(r['others'])}; f_fin_caller := {r['fin_caller']}%nat; "
             f"f_fin_faults := {nats(c.get('fin_faults', []))}; f_gc_raised := {r['gc_raised']}%nat; "
-            f"f_caller_raised := {b(r['caller_raised'])} |}}")
+            f"f_caller_raised := {b(r['caller_raised'])}; "
+            f"f_nested := {core.coq_list(r['nested'], lambda x: f'({x[0]}%nat, {b(x[1])})')} |}}")
 
 
 def ocase_t(c, r):
@@ -243,8 +322,54 @@ def ocase_t(c, r):
             f"o_fin_faults := {nats(c.get('fin_faults', []))}; o_unraisable := {r['unraisable']}%nat |}}")
 
 
+def cfg_of(c, m):
+    """the Coq [config] of a make / animate step of a session"""
+    return base.cfg_t({"loops": m["loops"], "cache": m["cache"], "size": c["size"], "dur": c["dur"], "args": m["args"],
+                       "pad": m["pad"], "owns": m["kind"] == "give", "frame": c.get("frame", 0)})
+
+
+def xstep_t(c, st):
+    if st[0] == "make":
+        return f"XStep (SMake {cfg_of(c, st[1])})"
+    if st[0] == "animate":
+        return f"XAnimate {cfg_of(c, st[1])}"
+    if st[0] == "ownerfin":
+        return "XStep SOwnerFinalize"
+    return f"XStep (SOp ({base.op_t(st[1])}))"
+
+
+def sout_t(o):
+    if o[0] == "made":
+        return "SMade"
+    if o[0] == "refused":
+        return f"(SRefused {err_t(o[1:])})"
+    if o[0] == "done":
+        return "SDone"
+    if o[0] == "noiter":
+        return "SNoIter"
+    return f"(SOut {base.out_t(o[1])})"
+
+
+def scase_t(c, r):
+    faults = core.coq_list(sorted((int(k), v) for k, v in c.get("faults", {}).items()),
+                           lambda kv: f"({kv[0]}%nat, {z(kv[1])})")
+    ffaults = core.coq_list(sorted((int(k), v) for k, v in c.get("ffaults", {}).items()),
+                            lambda kv: f"({z(kv[0])}, {z(kv[1])})")
+    n = "None" if c["n"] is None else f"(Some {z(c['n'])})"
+    return (f"{{| sc_n := {n}; sc_total := {z(c.get('total', 5))}; sc_faults := {faults}; sc_ffaults := {ffaults}; "
+            f"sc_stamp := {b(c.get('stamp'))}; sc_size := {base.size_t(c['size'])}; sc_dur := {base.dur_t(c['dur'])}; "
+            f"sc_frame := {z(c.get('frame', 0))}; sc_steps := {core.coq_list(c['steps'], lambda s: xstep_t(c, s))}; "
+            f"sc_obs := {core.coq_list(r['steps'], sout_t)}; sc_fins := {nats(r['fins'])}; "
+            f"sc_fzs := {core.coq_list(r['fzs'], b)}; sc_log := {core.coq_list(r['log'], base.rcall_t)}; "
+            f"sc_fin_end := {r['fin_end']}%nat; sc_fz_end := {b(r['fz_end'])}; sc_fin_owner := {r['fin_owner']}%nat |}}")
+
+
 def is_iter(c):
     return c.get("mode", "iter") == "iter"
+
+
+def is_session(c):
+    return c.get("mode") == "session"
 
 
 def evaluate(cases, tag="c10"):
@@ -264,7 +389,14 @@ def evaluate(cases, tag="c10"):
     codes = [0] * len(variants)
     errors = []
     ii = [k for k, v in enumerate(variants) if is_iter(v)]
-    oi = [k for k, v in enumerate(variants) if not is_iter(v)]
+    oi = [k for k, v in enumerate(variants) if not is_iter(v) and not is_session(v)]
+    si = [k for k, v in enumerate(variants) if is_session(v)]
+    if si:
+        res, errs = core.coq_shards(tag + "s", HEADER, [scase_t(variants[k], obs[k]) for k in si], "scase",
+                                    "sbad10 cases", shard=120)
+        errors += errs
+        for idx, code in res:
+            codes[si[idx]] = code
     if ii:
         res, errs = core.coq_shards(tag + "i", HEADER, [fcase_t(variants[k], obs[k]) for k in ii], "fcase",
                                     "bad10 cases", shard=120)
@@ -290,6 +422,20 @@ def describe(c):
             extra += f" finalizer raises at its invocation(s) {c['fin_faults']}"
         return f"iterator via {ctor_of(c)}{extra}: " + base.describe(c)
     n = "INDEFINITE" if c["n"] is None else c["n"]
+    if is_session(c):
+        def one(st):
+            if st[0] in ("make", "animate"):
+                m = st[1]
+                own = "" if st[0] == "animate" else f"finalize={m['kind'] == 'give'}, "
+                name = "_animate_" if st[0] == "animate" else "_from_render_data_"
+                return f"{name}({own}loops={m['loops']}, cache={m['cache']}, args={m['args']}, pad={m['pad']})"
+            if st[0] == "ownerfin":
+                return "owner: data.finalize()"
+            o = st[1]
+            return o[0] if len(o) == 1 else f"{o[0]}({', '.join(map(str, o[1:]))})"
+        return (f"session over one RenderData: frames={n} stream={c.get('total')} size={c['size']} dur={c['dur']} "
+                f"tell={c.get('frame', 0)} faults={c.get('faults', {})} frame_faults={c.get('ffaults', {})} "
+                f"steps=[{'; '.join(map(one, c['steps']))}]")
     return (f"{c['mode']}() frames={n} stream={c.get('total')} tell={c.get('frame', 0)} size={c['size']} "
             f"pad={c['pad']} args={c['args']} dur={c['dur']} loops={c['loops']} cache={c['cache']} "
             f"animate={c.get('animate')} check_size={c.get('check_size')} allow_scroll={c.get('allow_scroll')} "
@@ -298,7 +444,7 @@ def describe(c):
 
 
 SIG_KEYS = ("mode", "ctor", "n", "total", "loops", "cache", "size", "dur", "args", "pad", "frame", "faults", "ffaults",
-            "ops", "size_fault", "data_fault", "animate", "check_size", "allow_scroll", "fin_faults")
+            "ops", "size_fault", "data_fault", "animate", "check_size", "allow_scroll", "fin_faults", "steps")
 
 
 def signature(c):
@@ -335,7 +481,35 @@ def shrink_oneshot(c):
     return cur
 
 
+def shrink_session(c):
+    """greedy: drop steps (from the end first), then reset the renderable"""
+    cur = plain(c)
+    changed = True
+    while changed and len(cur["steps"]) > 1:
+        changed = False
+        cands = []
+        for k in reversed(range(len(cur["steps"]))):
+            d = copy.deepcopy(cur)
+            del d["steps"][k]
+            cands.append(d)
+        verdicts = fails_spec(cands)
+        for d, v in zip(cands, verdicts):
+            if v:
+                cur, changed = d, True
+                break
+    dflt = session_case([])
+    for f in ("ffaults", "stamp", "frame", "dur", "size", "total", "n"):
+        if cur.get(f) != dflt[f]:
+            d = copy.deepcopy(cur)
+            d[f] = copy.deepcopy(dflt[f])
+            if fails_spec([d])[0]:
+                cur = d
+    return cur
+
+
 def simplified(c):
+    if is_session(c):
+        return plain(c)
     flt = dict(c.get("faults") or {})
     if is_iter(c):
         k = max([int(x) for x in flt] + [0])
@@ -363,9 +537,18 @@ def simplified(c):
 
 
 def what_of(c, r, code):
+    if is_session(c):
+        seen = {"outcomes": [(x[:1] + [x[1][:3]] if x[0] == "out" else x[:2]) for x in r.get("steps", [])],
+                "finalize calls per step": r.get("fins"), "finalized per step": r.get("fzs"),
+                "finalized flag seen by _render_": [x[6] for x in r.get("log", [])],
+                "after dropping everything + gc": [r.get("fin_end"), r.get("fz_end")],
+                "after the owner's own finalize()": r.get("fin_owner")}
+        return ("render data not finalized exactly once / used after finalization: " + describe(c)
+                + " -> observed " + json.dumps(seen)[:900])
     if is_iter(c):
         seen = {"finalize calls per op": r.get("fin_ops"), "finalized per op": r.get("fz_ops"),
-                "closed per op": r.get("closed_ops"), "after del+gc": [r.get("fin"), r.get("finalized_end")],
+                "closed per op": r.get("closed_ops"), "close() calls from inside _render_ [what, _closed after]":
+                    r.get("nested"), "after del+gc": [r.get("fin"), r.get("finalized_end")],
                 "after the caller's own finalize()": r.get("fin_caller"),
                 "finalizer exceptions unraisable at gc / out of the caller's finalize()":
                     [r.get("gc_raised"), r.get("caller_raised")],
@@ -387,12 +570,13 @@ def run(ctx):
         cases = [ctx.replay["replay"]["case"]]
         n_corpus = 0
     else:
-        n_iter = 150 if ctx.quick else 2000
-        n_one = 90 if ctx.quick else 1200
-        corpus = [copy.deepcopy(c) for c in ITER_CORPUS + ONESHOT_CORPUS]
+        n_iter = 110 if ctx.quick else 1600
+        n_one = 80 if ctx.quick else 1000
+        n_sess = 60 if ctx.quick else 900
+        corpus = [copy.deepcopy(c) for c in ITER_CORPUS + ONESHOT_CORPUS + SESSION_CORPUS]
         n_corpus = len(corpus)
         cases = corpus + [gen_iter(rng, i, ctx.quick) for i in range(n_iter)] \
-            + [gen_oneshot(rng, i) for i in range(n_one)]
+            + [gen_oneshot(rng, i) for i in range(n_one)] + [gen_session(rng, i) for i in range(n_sess)]
     variants, codes, errors, obs = evaluate(cases)
 
     failing = [k for k, code in enumerate(codes) if code >= 2]
@@ -403,13 +587,18 @@ def run(ctx):
         # fault and just enough `next` operations to reach it (one-shot: the default case of the mode)
         simple = [simplified(c) for c in chosen]
         verdict = fails_spec(simple)
-        minimal, budget = [], (0 if any(verdict) else 1)
-        for c, s, v in zip(chosen, simple, verdict):
-            if v:
+        has_simple = any(v and not is_session(s) for s, v in zip(simple, verdict))
+        first_session = next((k for k, c in enumerate(chosen) if is_session(c)), None)
+        minimal, budget = [], (0 if has_simple else 1)
+        for k, (c, s, v) in enumerate(zip(chosen, simple, verdict)):
+            if k == first_session:
+                minimal.append(shrink_session(c))
+            elif v:
                 minimal.append(s)
             elif budget > 0:
                 budget -= 1
-                minimal.append(base.shrink(c, fails_spec, "c10s") if is_iter(c) else shrink_oneshot(c))
+                minimal.append(base.shrink(c, fails_spec, "c10s") if is_iter(c) else
+                               shrink_session(c) if is_session(c) else shrink_oneshot(c))
             else:
                 minimal.append(c)
         uniq = {}
@@ -428,7 +617,10 @@ def run(ctx):
          "fault_variants": 0, "ops_on_ended_iterator": 0, "render_calls_observed": 0,
          "faults_actually_hit": 0, "ctor_rejected": 0, "data_left_to_gc": 0, "caller_owned_left_unfinalized": 0,
          "abandoned_half_built_data_collected": 0, "draw_animated": 0, "draw_still": 0,
-         "draw_size_validation_failures": 0, "finalizer_fault_schedule": {}, "finalizer_exception_seen": {}}
+         "draw_size_validation_failures": 0, "finalizer_fault_schedule": {}, "finalizer_exception_seen": {},
+         "nested_close_calls": 0, "session_steps": {}, "session_iterators_made": 0,
+         "session_constructions_refused_finalized_data": 0, "session_owner_finalize_then_reuse": 0,
+         "session_misuse_not_judged": 0}
 
     def inc(k, v):
         v = str(v)
@@ -446,6 +638,29 @@ def run(ctx):
             inc("finalizer_fault_schedule", ff)
         h["fault_variants" if flt or ff else "histories_unfaulted"] += 1
         h["render_calls_observed"] += len(r.get("log", []))
+        if is_session(c):
+            inc("family", "session")
+            fz, reuse, live = False, False, False
+            for st, y, z_ in zip(c["steps"], r["steps"], r["fzs"]):
+                inc("session_steps", st[0])
+                if st[0] == "ownerfin" and live:
+                    h["session_misuse_not_judged"] += 1
+                if st[0] in ("make", "animate"):
+                    live = y[0] == "made"
+                    h["session_iterators_made"] += y[0] in ("made", "done")
+                    if fz:
+                        reuse = True
+                        h["session_constructions_refused_finalized_data"] += y[0] == "refused"
+                if st[0] == "op" and y[0] == "out" and (y[1][0] in ("S", "E") and st[1][0] == "next"
+                                                         or st[1][0] in ("close", "drop")):
+                    live = False
+                fz = bool(z_)
+            h["session_owner_finalize_then_reuse"] += reuse
+            if reuse and len(r.get("log", [])) >= 2:
+                nontrivial.add(signature(c))
+            if any(v in (0, 1) for v in flt.values()) and any(y[0] == "out" and y[1][0] == "E" for y in r["steps"]):
+                h["faults_actually_hit"] += 1
+            continue
         if is_iter(c):
             inc("family", "iterator")
             inc("constructor", ctor_of(c))
@@ -469,6 +684,7 @@ def run(ctx):
                 ended = "garbage collection only"
                 h["data_left_to_gc"] += 1
             inc("iterator_ended_by", ended)
+            h["nested_close_calls"] += len(r.get("nested", []))
             if ff:
                 where = next((o[0] for o, x in zip(c["ops"], r["ops"]) if x[0][:3] == ["E", "render", 90]), None)
                 where = where or ("garbage collection (unraisable)" if r.get("gc_raised") else
@@ -501,8 +717,9 @@ def run(ctx):
 
     samples = [describe(v) for v in variants[:1]]
     samples += [describe(v) for v in variants if is_iter(v) and v.get("faults")][n_corpus * 3:][:2]
-    samples += [describe(v) for v in variants if not is_iter(v) and v.get("faults")][:2]
-    samples += [describe(v) for v in variants if not is_iter(v) and v["mode"] == "draw" and not v.get("faults")][-1:]
+    samples += [describe(v) for v in variants if not is_iter(v) and not is_session(v) and v.get("faults")][:1]
+    samples += [describe(v) for v in variants if is_session(v)][:1]
+    samples += [describe(v) for v in variants if is_session(v)][-1:]
     return {
         "corr_name": "life of render data on the real RenderIterator / render() / str() / draw() over the "
                      "instrumented renderable VR10 == finalisation ghost of the Iter model (check10 / ocheck10 bit 1); "
